@@ -126,6 +126,15 @@ struct nq; static void havoc_int_state(struct nq* q); static _Bool int_wf(struct
 #define XV_HAVOC_POP n = nondet_uptr(); havoc_int_state(self)   /* re-creates every node and _head/_tail: idx next expected _head _allocated_queue _free_queue _storage GDEREF */
 #define XV_INV_PUSH (int_wf(self) && value.alive && !value.moved && !value.cell && value.v == g_int_v)
 #define XV_HAVOC_PUSH n = nondet_uptr(); havoc_int_state(self); value.v = g_int_v; value.moved = 0; value.alive = 1; value.cell = 0   /* _tail _next next expected GDEREF NDEREF */
+/* ---- pop(): std::optional<value_type> = {present, value}; std::optional<T>(std::move(v)) move-constructs the value from v ---- */
+struct xv_opt { _Bool present; T val; };
+#define XV_NULLOPT ((struct xv_opt){0})
+unsigned g_opt_moves;
+static struct xv_opt xv_opt_from_moved(T* s) {
+  XV_OBL("nq.own.exactly_once", s->alive && !s->moved);                    /* an element is moved out at most once */
+  struct xv_opt o; o.present = 1; o.val = (T){ .v = s->v, .alive = 1, .moved = 0, .cell = 0, .nc = 0, .nd = 0, .nm = 0, }; s->moved = 1; g_opt_moves++; return o;
+}
+#define XV_OPT_FROM_MOVED(x) xv_opt_from_moved(&(x))
 #include "lowered.h"
 
 /* ---------------------------------------------------------------- node-level state: Inv_N = allocated ++ free is a permutation of
@@ -422,3 +431,20 @@ void h_push_int(void) {
   XV_CANARY("push_int.returned"); if (node2.xv_live) XV_CANARY("push_int.linked");
 #endif
 }
+
+/* pop(): the functors it passes to do_pop (extracted text) against the ones of try_pop; XV_POP_OPTIONAL_TARGET is the callee named in pop()'s body */
+#define do_pop 7701
+void h_pop_optional(void) {
+  T c1; c1.v = nondet_u32(); c1.alive = 1; c1.moved = 0; c1.cell = 0; c1.nc = c1.nd = c1.nm = 0;
+  T c2 = c1, res = c1; res.v = nondet_u32();
+  g_opt_moves = 0;
+  XV_OBL("nq.pop_optional.same_as_try_pop", XV_POP_OPTIONAL_TARGET == 7701);
+  struct xv_opt a = nq_pop_success(&c1);
+  _Bool ok = nq_try_pop_success(&res, &c2);
+  XV_OBL("nq.pop_optional.same_as_try_pop", ok && a.present && a.val.v == res.v && a.val.v == c2.v && a.val.alive && !a.val.moved && g_opt_moves == 1);
+  XV_OBL("nq.pop_optional.same_as_try_pop", c1.moved && c1.alive && c2.moved && c2.alive && c1.v == c2.v);      /* moved-from, not destroyed: do_pop runs ~T() on the cell afterwards */
+  struct xv_opt e = nq_pop_empty();
+  XV_OBL("nq.pop_optional.same_as_try_pop", !e.present && !nq_try_pop_empty());
+  XV_CANARY("pop_optional.reached");
+}
+#undef do_pop
